@@ -1,5 +1,6 @@
 import QtVerif.Model.Proto
 import QtVerif.Model.Slave
+import QtVerif.Model.SlaveRestart
 import QtVerif.Model.SlaveNames
 /-!
 Line-protocol front end of the master/slave model, shared by Driver/C12.lean and Driver/C13.lean.
@@ -145,6 +146,11 @@ def dstep (d : DState) : List String → DState × String
       ({ d with m := m' }, "ok " ++ fmtReqs reqs)
     | _, _, _ => (d, "bad-op")
   | ["offline"] => ({ d with m := goOffline d.m }, "ok")
+  -- master restart of a permanently offline (webhook-driven) slave (C13): `restart-permoff <restore 0|1>`
+  | ["restart-permoff", r] =>
+    match b r with
+    | some r => ({ d with m := restartPermOffline r d.m }, "ok")
+    | none => (d, "bad-op")
   | ["edit-attr", i, n, v] =>
     match i.toNat?, n.toNat?, v.toInt? with
     | some i, some n, some v =>
